@@ -27,6 +27,8 @@ Proof. destruct d; vm_compute; lia. Qed.
 Lemma pop_max_le d : (pop_max d <= 100)%nat.
 Proof. destruct d; vm_compute; lia. Qed.
 
+Global Opaque pop_max.
+
 Lemma chan_cap_pos : (1 <= N.to_nat ew_chan_cap)%nat.
 Proof. vm_compute. lia. Qed.
 
@@ -76,12 +78,14 @@ Lemma inv_init : Inv init.
 Proof.
   constructor; cbn; try reflexivity; try discriminate; try (intros; discriminate);
     try constructor; try (intros [?|?]; discriminate); try lia.
-  - pose proof chan_cap_pos. lia.
-  - intuition discriminate.
 Qed.
 
+Ltac pj := cbn [chan closed buf woken done_sig wg bp wp cp delivered accepted panicked
+                 b_late b_signalled w_post waiting hand inflight pending after
+                 app concat negb andb orb] in *.
+
 Ltac crush :=
-  cbn in *; intros;
+  pj; intros;
   repeat match goal with
          | H : _ /\ _ |- _ => destruct H
          | H : ?a = ?a -> _ |- _ => specialize (H eq_refl)
@@ -97,13 +101,13 @@ Proof.
   destruct s as [ch cl bf wk dn g b w c dl ac pn]. unfold step_pub.
   destruct (key_of e) as [k|] eqn:Ek; [|constructor; assumption].
   destruct cl.
-  - constructor; cbn in *; try assumption. reflexivity.
+  - constructor; pj; try assumption. reflexivity.
   - destruct (Nlen ch <? ew_chan_cap) eqn:El; [|constructor; assumption].
     apply N.ltb_lt in El. unfold Nlen in El.
-    constructor; cbn in *; try assumption.
+    constructor; pj; try assumption.
     + rewrite Hc. unfold pending. cbn. repeat rewrite <- app_assoc. reflexivity.
     + apply Forall_app. split; [assumption|]. constructor; [exact Ek|constructor].
-    + rewrite app_length. cbn. lia.
+    + rewrite app_length. cbn [length]. lia.
     + intro Hl. destruct (Hbl Hl) as [_ F]. discriminate.
 Qed.
 
@@ -111,32 +115,542 @@ Qed.
 Lemma inv_B s : Inv s -> Inv (step_B s).
 Proof.
   intros [Hc Hk Hb Hi Hcap Hcl Hwg Hbl Hd Hwp Hpop Hnw Hwe Hwk Hwt Hr Hp].
-  destruct s as [ch cl bf wk dn g b w c dl ac pn]. unfold step_B.
-  destruct b as [|m| | | |].
-  - (* BIdle *)
-    destruct ch as [|m r].
-    + destruct cl; [|constructor; assumption].
-      constructor; cbn in *; try assumption; crush.
-      * destruct (w_post w); [discriminate (Hwp eq_refl)|]. reflexivity.
-    + constructor; cbn in *; try assumption; crush.
-      * destruct (w_post w); [discriminate (Hwp eq_refl)|]. reflexivity.
-  - (* BHold: Push *)
-    assert (Hnp : w_post w = false) by (destruct (w_post w); [discriminate (Hwp eq_refl)|reflexivity]).
-    constructor; cbn in *; try assumption; crush.
-    + rewrite Hc. unfold pending. cbn. repeat rewrite <- app_assoc. reflexivity.
-    + subst w. discriminate.
-    + destruct H as [H|H]; subst w; discriminate.
-    + destruct wk; cbn in *; [apply Hwk; reflexivity|assumption].
-    + destruct wk; cbn in *; [discriminate|]. rewrite H in H0. discriminate.
-  - (* BSignal *)
-    assert (Hnp : w_post w = false) by (destruct (w_post w); [discriminate (Hwp eq_refl)|reflexivity]).
-    constructor; cbn in *; try assumption; crush.
-    rewrite Hnp. reflexivity.
-  - (* BBcast *)
-    constructor; cbn in *; try assumption; crush.
-    + destruct wk; cbn in *; [apply Hwk; reflexivity|assumption].
-    + destruct wk; cbn in *; [discriminate|]. rewrite H in H0. discriminate.
-  - (* BWg *)
-    constructor; cbn in *; try assumption; crush.
-  - constructor; assumption.
+  destruct s as [ch cl bf wk dn g b w c dl ac pn]. unfold step_B. unfold pending in *.
+  assert (Hnp : b_signalled b = false -> w_post w = false).
+  { pj. intro E. destruct (w_post w); [rewrite (Hwp eq_refl) in E; discriminate|reflexivity]. }
+  destruct b as [|m| | | |]; [destruct ch as [|m r]; [destruct cl|]| | | | |];
+    try (constructor; assumption);
+    (constructor; unfold pending; pj; try assumption; try solve [crush]).
+  - cbn [length] in Hcap. lia.
+  - rewrite Hc. repeat rewrite <- app_assoc. reflexivity.
+  - intros ->. discriminate (Hnp eq_refl).
+  - intros [-> | ->]; discriminate (Hnp eq_refl).
+  - destruct wk; pj; [intros _; apply Hwk; reflexivity|auto].
+  - intros H1 H2. rewrite H1 in H2. destruct wk; discriminate.
+  - rewrite (Hnp eq_refl). reflexivity.
+  - destruct wk; pj; [intros _; apply Hwk; reflexivity|auto].
+  - intros H1 H2. rewrite H1 in H2. destruct wk; discriminate.
+Qed.
+
+(* --- writer --- *)
+Lemma firstn_ok_batch d (bf : list msg) : bf <> [] -> ok_batch (firstn (pop_max d) bf).
+Proof.
+  intro Hne. unfold ok_batch. rewrite firstn_length.
+  pose proof (pop_max_pos d). pose proof (pop_max_le d).
+  destruct bf as [|x bf]; [congruence|]. cbn [length]. lia.
+Qed.
+
+Lemma inv_W s : Inv s -> Inv (step_W s).
+Proof.
+  intros [Hc Hk Hb Hi Hcap Hcl Hwg Hbl Hd Hwp Hpop Hnw Hwe Hwk Hwt Hr Hp].
+  destruct s as [ch cl bf wk dn g b w c dl ac pn]. unfold step_W. unfold pending in *.
+  rewrite drain_on_done.
+  destruct w as [|d|d|d bt|d| | |];
+    [destruct dn|destruct bf as [|x bf]|destruct wk; [destruct bf as [|x bf]|]
+     |destruct bt as [|x bt]| |destruct bf as [|x bf]| |];
+    try destruct d;
+    try (constructor; assumption);
+    (constructor; unfold pending; pj; try assumption; try solve [crush]).
+  - intros _. destruct (b_signalled b); [reflexivity|discriminate].
+  - rewrite Hc. rewrite (app_assoc (firstn _ _)). rewrite firstn_skipn. reflexivity.
+  - intros d0 b0 [= <- <-]. apply firstn_ok_batch. discriminate.
+  - rewrite Hc. rewrite (app_assoc (firstn _ _)). rewrite firstn_skipn. reflexivity.
+  - intros d0 b0 [= <- <-]. apply firstn_ok_batch. discriminate.
+  - rewrite Hc. rewrite (app_assoc (firstn _ _)). rewrite firstn_skipn. reflexivity.
+  - intros d0 b0 [= <- <-]. apply firstn_ok_batch. discriminate.
+  - rewrite concat_app. cbn [concat]. rewrite app_nil_r. rewrite <- app_assoc. exact Hc.
+  - apply Forall_app. split; [assumption|]. constructor; [eapply Hi; reflexivity|constructor].
+  - rewrite concat_app. cbn [concat]. rewrite app_nil_r. rewrite <- app_assoc. exact Hc.
+  - apply Forall_app. split; [assumption|]. constructor; [eapply Hi; reflexivity|constructor].
+Qed.
+
+(* --- closer --- *)
+Lemma inv_C s : Inv s -> Inv (step_C s).
+Proof.
+  intros [Hc Hk Hb Hi Hcap Hcl Hwg Hbl Hd Hwp Hpop Hnw Hwe Hwk Hwt Hr Hp].
+  destruct s as [ch cl bf wk dn g b w c dl ac pn]. unfold step_C. unfold pending in *.
+  destruct c; [| |destruct (g =? 0)%Z eqn:Eg|];
+    try (constructor; assumption);
+    (constructor; unfold pending; pj; try assumption; try solve [crush]).
+  intros _. apply Z.eqb_eq in Eg. destruct b, w; try lia; split; reflexivity.
+Qed.
+
+Lemma step_inv l s : Inv s -> Inv (step l s).
+Proof.
+  destruct l; cbn [step]; [apply inv_pub|apply inv_B|apply inv_W|apply inv_C].
+Qed.
+
+Lemma inv_reach sched : Inv (run sched init).
+Proof. apply reach_ind; [exact inv_init|intros s l; apply step_inv]. Qed.
+
+(* ---------- consequences ---------- *)
+Definition id_of (m : msg) : N * N := (m_prod m, e_tag (m_ev m)).
+Definition by_prod (p : N) (m : msg) : bool := m_prod m =? p.
+
+Lemma conservation sched :
+  let s := run sched init in accepted s = concat (delivered s) ++ pending s.
+Proof. apply i_cons, inv_reach. Qed.
+
+(* meaning of the ghost variable [accepted]: it grows exactly when a producer's send succeeds *)
+Lemma accepted_spec s :
+  (forall p e,
+     accepted (step (LPub p e) s) =
+     match key_of e with
+     | Some k => if publish_enabled s then accepted s ++ [mkMsg p e k] else accepted s
+     | None => accepted s
+     end) /\
+  accepted (step LB s) = accepted s /\ accepted (step LW s) = accepted s /\
+  accepted (step LC s) = accepted s.
+Proof.
+  destruct s as [ch cl bf wk dn g b w c dl ac pn]. unfold publish_enabled.
+  repeat split; cbn [step].
+  - intros p e. unfold step_pub. cbn [closed chan accepted].
+    destruct (key_of e); [|reflexivity]. destruct cl; cbn [negb andb]; [reflexivity|].
+    destruct (Nlen ch <? ew_chan_cap); reflexivity.
+  - unfold step_B. destruct b; try reflexivity. destruct ch; [destruct cl|]; reflexivity.
+  - unfold step_W. destruct w as [|d|d|d bt|d| | |]; try reflexivity.
+    + destruct dn; reflexivity.
+    + destruct bf; reflexivity.
+    + destruct wk; [destruct bf|]; reflexivity.
+    + destruct bt; reflexivity.
+    + destruct bf; reflexivity.
+  - unfold step_C. destruct c; try reflexivity. destruct (g =? 0)%Z; reflexivity.
+Qed.
+
+Lemma delivered_incl_accepted sched m :
+  In m (concat (delivered (run sched init))) -> In m (accepted (run sched init)).
+Proof. intro H. rewrite (conservation sched). apply in_or_app. left. exact H. Qed.
+
+Lemma NoDup_app_l {A} (l l' : list A) : NoDup (l ++ l') -> NoDup l.
+Proof.
+  induction l' as [|a l' IH] using rev_ind; intro H.
+  - rewrite app_nil_r in H. exact H.
+  - apply IH. rewrite app_assoc in H. rewrite <- (app_nil_r (l ++ l')).
+    apply NoDup_remove_1 with (a := a). exact H.
+Qed.
+
+Lemma exactly_once sched :
+  let s := run sched init in
+  NoDup (map id_of (accepted s)) -> NoDup (map id_of (concat (delivered s))).
+Proof.
+  cbn zeta. rewrite (conservation sched). rewrite map_app. apply NoDup_app_l.
+Qed.
+
+Lemma per_producer_order sched p :
+  let s := run sched init in
+  exists rest, filter (by_prod p) (accepted s) = filter (by_prod p) (concat (delivered s)) ++ rest.
+Proof.
+  cbn zeta. exists (filter (by_prod p) (pending (run sched init))).
+  rewrite <- filter_app. f_equal. apply conservation.
+Qed.
+
+Lemma batch_bound sched b :
+  In b (delivered (run sched init)) -> (1 <= length b <= 100)%nat.
+Proof.
+  intro H. pose proof (i_batches _ (inv_reach sched)) as HF.
+  rewrite Forall_forall in HF. apply (HF b H).
+Qed.
+
+Lemma flush sched :
+  let s := run sched init in
+  cp s = CReturned -> pending s = [] /\ concat (delivered s) = accepted s.
+Proof.
+  cbn zeta. intro Hret. pose proof (inv_reach sched) as I.
+  destruct (i_ret _ I Hret) as [Hb Hw].
+  assert (Hp : pending (run sched init) = []).
+  { unfold pending. rewrite Hb, Hw. cbn [inflight hand app].
+    rewrite (i_wend _ I (or_intror Hw)).
+    assert (Hl : b_late (bp (run sched init)) = true) by (rewrite Hb; reflexivity).
+    destruct (i_blate _ I Hl) as [-> _]. reflexivity. }
+  split; [exact Hp|]. rewrite (i_cons _ I), Hp, app_nil_r. reflexivity.
+Qed.
+
+Lemma wg_nonneg sched : (0 <= wg (run sched init))%Z.
+Proof.
+  pose proof (inv_reach sched) as I. rewrite (i_wg _ I).
+  pose proof (i_closed _ I) as Hcl. pose proof (i_blate _ I) as Hbl. pose proof (i_wpost _ I) as Hwp.
+  destruct (cp (run sched init)) eqn:Ec.
+  2-4: destruct (bp (run sched init)), (wp (run sched init)); lia.
+  destruct (bp (run sched init)) eqn:Eb; destruct (wp (run sched init)) eqn:Ew; try lia;
+    cbn in Hbl, Hwp; try (destruct (Hbl eq_refl) as [_ F]; congruence);
+    try (discriminate (Hwp eq_refl)).
+Qed.
+
+Lemma no_panic_before_close sched :
+  panicked (run sched init) = true -> closed (run sched init) = true.
+Proof. apply i_panic, inv_reach. Qed.
+
+(* producers wait for the batcher only, never for the writer / the broker: whatever the writer
+   is doing (for instance sitting in the write function for ever), at most two steps of the
+   batcher alone make room in the channel *)
+Lemma producers_never_wait sched :
+  let s := run sched init in
+  closed s = false ->
+  exists k, (k <= 2)%nat /\
+    let s' := run (repeat LB k) s in
+    publish_enabled s' = true /\ wp s' = wp s /\ delivered s' = delivered s /\
+    accepted s' = accepted s.
+Proof.
+  cbn zeta. intro Hcl. pose proof (inv_reach sched) as I.
+  pose proof (i_cap _ I) as Hcap. pose proof (i_blate _ I) as Hbl.
+  destruct (run sched init) as [ch cl bf wk dn g b w c dl ac pn]. cbn [closed chan bp] in *. subst cl.
+  pose proof chan_cap_pos as Hpos.
+  destruct (Nlen ch <? ew_chan_cap) eqn:El.
+  - exists 0%nat. split; [lia|]. cbn. unfold publish_enabled. cbn. rewrite El. auto.
+  - apply N.ltb_ge in El. unfold Nlen in El.
+    destruct ch as [|m r]; [cbn in El; lia|]. cbn [length] in *.
+    assert (Hr : (Nlen r <? ew_chan_cap) = true) by (apply N.ltb_lt; unfold Nlen; lia).
+    destruct b as [|m0| | | |]; try (destruct (Hbl eq_refl) as [_ F]; discriminate).
+    + exists 1%nat. split; [lia|]. cbn. unfold publish_enabled. cbn. rewrite Hr. auto.
+    + exists 2%nat. split; [lia|]. cbn. unfold publish_enabled. cbn. rewrite Hr. auto.
+Qed.
+
+(* ---------- keys ---------- *)
+Lemma key_table_documented :
+  ew_key_table = [(0,0); (1,0); (2,0); (3,1); (4,2); (5,2); (6,2); (7,2); (8,2)].
+Proof. reflexivity. Qed.
+
+Lemma env_scoped_cases k :
+  env_scoped_kind k = true -> k = 4 \/ k = 5 \/ k = 6 \/ k = 7 \/ k = 8.
+Proof.
+  unfold env_scoped_kind. intro H. apply andb_true_iff in H. destruct H as [H1 H2].
+  apply N.leb_le in H1. apply N.leb_le in H2. lia.
+Qed.
+
+Lemma key_env_scoped e :
+  env_scoped_kind (e_kind e) = true -> key_of e = Some (nonempty_key (e_env e)).
+Proof.
+  intro H. apply env_scoped_cases in H. unfold key_of.
+  destruct H as [-> | [-> | [-> | [-> | ->]]]]; reflexivity.
+Qed.
+
+Lemma key_task e : e_kind e = 3 -> key_of e = Some (nonempty_key (e_task e)).
+Proof. intro H. unfold key_of. rewrite H. reflexivity. Qed.
+
+Lemma key_meta e : e_kind e <= 2 -> key_of e = Some None.
+Proof.
+  intro H. assert (C : e_kind e = 0 \/ e_kind e = 1 \/ e_kind e = 2) by lia.
+  unfold key_of. destruct C as [-> | [-> | ->]]; reflexivity.
+Qed.
+
+Lemma key_unsupported e : 9 <= e_kind e -> key_of e = None.
+Proof.
+  intro H. unfold key_of.
+  assert (E : assocN (e_kind e) ew_key_table = None).
+  { rewrite key_table_documented. cbn [assocN].
+    repeat match goal with
+           | |- context [?a =? ?b] => destruct (N.eqb_spec a b); [lia|]
+           end. reflexivity. }
+  rewrite E. reflexivity.
+Qed.
+
+Lemma documented_key_agrees e k : key_of e = Some k -> k = documented_key e.
+Proof.
+  intro H. unfold documented_key.
+  destruct (env_scoped_kind (e_kind e)) eqn:Es.
+  - rewrite (key_env_scoped e Es) in H. congruence.
+  - destruct (N.eqb_spec (e_kind e) 3) as [E3|N3].
+    + rewrite (key_task e E3) in H. congruence.
+    + destruct (N.le_gt_cases (e_kind e) 2) as [L|G].
+      * rewrite (key_meta e L) in H. congruence.
+      * assert (9 <= e_kind e).
+        { unfold env_scoped_kind in Es. apply andb_false_iff in Es.
+          destruct Es as [Es|Es]; apply N.leb_gt in Es; lia. }
+        rewrite (key_unsupported e H0) in H. discriminate.
+Qed.
+
+Lemma delivered_key sched m :
+  In m (concat (delivered (run sched init))) -> key_of (m_ev m) = Some (m_key m).
+Proof.
+  intro H. apply delivered_incl_accepted in H.
+  pose proof (i_keys _ (inv_reach sched)) as HF. rewrite Forall_forall in HF. apply HF, H.
+Qed.
+
+Lemma same_key sched m1 m2 :
+  let s := run sched init in
+  In m1 (concat (delivered s)) -> In m2 (concat (delivered s)) ->
+  env_scoped_kind (e_kind (m_ev m1)) = true -> env_scoped_kind (e_kind (m_ev m2)) = true ->
+  e_env (m_ev m1) = e_env (m_ev m2) ->
+  m_key m1 = m_key m2 /\ m_key m1 = nonempty_key (e_env (m_ev m1)).
+Proof.
+  cbn zeta. intros H1 H2 K1 K2 E.
+  apply delivered_key in H1. apply delivered_key in H2.
+  rewrite (key_env_scoped _ K1) in H1. rewrite (key_env_scoped _ K2) in H2.
+  split; [congruence|congruence].
+Qed.
+
+Lemma task_key sched m :
+  In m (concat (delivered (run sched init))) -> e_kind (m_ev m) = 3 ->
+  m_key m = nonempty_key (e_task (m_ev m)).
+Proof.
+  intros H K. apply delivered_key in H. rewrite (key_task _ K) in H. congruence.
+Qed.
+
+(* the literal reading "same environment id => same key" over ALL event types fails for task
+   events, which carry an environment id but are keyed by their task id *)
+Definition ev_task_E : event := mkEvent 3 0 [69] [84].   (* task event of task "T" in environment "E" *)
+Definition ev_env_E : event := mkEvent 5 1 [69] [].     (* environment event of environment "E" *)
+Definition sched_two_keys : list label :=
+  [LPub 0 ev_task_E; LPub 0 ev_env_E; LB; LB; LB; LB; LW; LW; LW].
+
+Lemma task_event_other_key :
+  let s := run sched_two_keys init in
+  exists m1 m2, In m1 (concat (delivered s)) /\ In m2 (concat (delivered s)) /\
+                e_env (m_ev m1) = e_env (m_ev m2) /\ e_env (m_ev m1) <> [] /\
+                m_key m1 <> m_key m2.
+Proof.
+  exists (mkMsg 0 ev_task_E (Some [84])), (mkMsg 0 ev_env_E (Some [69])).
+  vm_compute. repeat split; auto; try discriminate.
+Qed.
+
+(* ---------- Close can hang ---------- *)
+Definition hang_sched : list label := [LW; LC; LC; LB; LB; LB; LB; LW].
+
+Definition dead (s : st) : Prop :=
+  cp s = CClosed /\ bp s = BExit /\ wp s = WWait false /\ woken s = false /\
+  wg s <> 0%Z /\ closed s = true.
+
+Lemma dead_step l s : dead s -> dead (step l s).
+Proof.
+  intros (Hc & Hb & Hw & Hk & Hg & Hcl).
+  destruct s as [ch cl bf wk dn g b w c dl ac pn]. cbn in *. subst.
+  destruct l as [p e| | |]; cbn.
+  - unfold step_pub. destruct (key_of e); unfold dead; cbn; auto 10.
+  - unfold dead; cbn; auto 10.
+  - unfold dead; cbn; auto 10.
+  - destruct (g =? 0)%Z eqn:E; [apply Z.eqb_eq in E; contradiction|]. unfold dead; cbn; auto 10.
+Qed.
+
+Lemma dead_run sched s : dead s -> dead (run sched s).
+Proof.
+  revert s. induction sched as [|l sched IH]; intros s H; [exact H|].
+  cbn. apply IH, dead_step, H.
+Qed.
+
+Lemma close_can_hang :
+  let s := run hang_sched init in
+  lost_wakeup s /\ forall sched', cp (run sched' s) <> CReturned.
+Proof.
+  cbn zeta. split.
+  - vm_compute. repeat split; reflexivity.
+  - intros sched'. assert (D : dead (run hang_sched init)).
+    { vm_compute. repeat split; try reflexivity. discriminate. }
+    destruct (dead_run sched' _ D) as (Hc & _). rewrite Hc. discriminate.
+Qed.
+
+(* after Close has been called, the only state in which nothing can move and Close has not
+   returned is the lost wake-up; even there nothing accepted is missing at the broker *)
+Lemma stuck_is_lost_wakeup sched :
+  let s := run sched init in
+  cp s = CClosed -> b_can s = false -> w_can s = false -> c_can s = false -> lost_wakeup s.
+Proof.
+  cbn zeta. intros Hc Hb Hw Hcc. pose proof (inv_reach sched) as I.
+  destruct I as [Ic _ _ _ _ Icl Iwg Ibl Id _ _ Inw _ _ Iwt _ _].
+  unfold lost_wakeup, b_can, w_can, c_can, pending in *.
+  destruct (run sched init) as [ch cl bf wk dn g b w c dl ac pn]. cbn in *. subst c.
+  subst cl.
+  assert (Eb : b = BExit).
+  { destruct b; try discriminate; [destruct ch; discriminate|reflexivity]. }
+  subst b. destruct (Ibl eq_refl) as [-> _].
+  destruct w as [|d|d|d bt|d| | |]; try discriminate.
+  - subst wk. destruct d; [congruence|]. rewrite (Iwt eq_refl eq_refl) in *.
+    cbn in *. rewrite app_nil_r in Ic. repeat split; auto.
+  - exfalso. apply Z.eqb_neq in Hcc. lia.
+Qed.
+
+(* every step of the batcher, the writer or Close strictly decreases [measure]: between two
+   publications the service processes can only make finitely many steps (in particular, after
+   Close was called, every run reaches a state where nothing can move) *)
+Lemma skipn_shorter {A} k (l : list A) : (1 <= k)%nat -> l <> [] -> (length (skipn k l) < length l)%nat.
+Proof.
+  intros Hk Hl. rewrite skipn_length. destruct l; [congruence|]. cbn [length]. lia.
+Qed.
+
+Lemma measure_decreases l s :
+  (l = LB \/ l = LW \/ l = LC) -> can l s = true -> (measure (step l s) < measure s)%nat.
+Proof.
+  intros Hl Hcan.
+  destruct s as [ch cl bf wk dn g b w c dl ac pn].
+  destruct Hl as [-> | [-> | ->]]; cbn [can] in Hcan; cbn [step].
+  - unfold b_can in Hcan. cbn [bp chan closed] in Hcan. unfold step_B, measure, credits, b_rank.
+    destruct b as [|m| | | |]; try discriminate.
+    + destruct ch as [|m r]; [subst cl|]; cbn; lia.
+    + cbn. rewrite app_length. cbn. destruct wk, (waiting w); cbn; lia.
+    + cbn. destruct dn; cbn; lia.
+    + cbn. destruct wk, (waiting w); cbn; lia.
+    + cbn. lia.
+  - unfold w_can in Hcan. cbn [wp woken] in Hcan. unfold step_W, measure, credits, b_rank.
+    rewrite drain_on_done.
+    destruct w as [|d|d|d bt|d| | |]; try discriminate.
+    + destruct dn; cbn; lia.
+    + destruct bf as [|x bf].
+      * cbn. destruct wk, d; cbn; lia.
+      * pose proof (skipn_shorter (pop_max d) (x :: bf) (pop_max_pos d) ltac:(discriminate)) as Hs.
+        cbn [chan buf bp wp cp woken done_sig b_rank w_rank]. cbn [length] in *. lia.
+    + subst wk. destruct bf as [|x bf].
+      * cbn. destruct d; cbn; lia.
+      * pose proof (skipn_shorter (pop_max d) (x :: bf) (pop_max_pos d) ltac:(discriminate)) as Hs.
+        cbn [chan buf bp wp cp woken done_sig b_rank w_rank b2n]. cbn [length] in *. lia.
+    + destruct bt; cbn; destruct d; cbn; lia.
+    + cbn. destruct d; cbn; lia.
+    + destruct bf; cbn; lia.
+    + cbn. lia.
+  - unfold c_can in Hcan. cbn [cp wg] in Hcan. unfold step_C, measure, credits, b_rank.
+    destruct c; try discriminate; [cbn; lia|cbn; lia|]. rewrite Hcan. cbn. lia.
+Qed.
+
+(* ---------- the forced (coarse) schedules are schedules ---------- *)
+Definition coarse_state (ops : list op) (s : st) : st :=
+  fold_left (fun s o => run (coarse_labels o s) s) ops s.
+
+Lemma coarse_state_is_run ops : forall s, coarse_state ops s = run (coarse_sched ops s) s.
+Proof.
+  induction ops as [|o r IH]; intro s; [reflexivity|].
+  cbn [coarse_state fold_left coarse_sched]. rewrite run_app. apply IH.
+Qed.
+
+Lemma forced_schedule_is_schedule ops :
+  coarse_state ops init_settled = run (init_labels ++ coarse_sched ops init_settled) init.
+Proof. rewrite run_app. apply coarse_state_is_run. Qed.
+
+(* ---------- Close returns, or the run ends in the lost wake-up ---------- *)
+Definition service (l : label) : Prop := l = LB \/ l = LW \/ l = LC.
+Definition quiescent (s : st) : Prop := b_can s = false /\ w_can s = false /\ c_can s = false.
+(* a scheduling policy: which process moves next; fair = it picks a process that can move
+   whenever there is one, and no producer publishes any more *)
+Definition fair_policy (pol : st -> label) : Prop :=
+  forall s, ~ quiescent s -> service (pol s) /\ can (pol s) s = true.
+Fixpoint drive (pol : st -> label) (n : nat) (s : st) : st :=
+  match n with O => s | S k => drive pol k (step (pol s) s) end.
+
+Lemma stuck_is_lost_wakeup_inv s :
+  Inv s -> cp s = CClosed -> quiescent s -> lost_wakeup s.
+Proof.
+  intros I Hc (Hb & Hw & Hcc).
+  destruct I as [Ic _ _ _ _ Icl Iwg Ibl Id _ _ Inw _ _ Iwt _ _].
+  unfold lost_wakeup, b_can, w_can, c_can, pending in *.
+  destruct s as [ch cl bf wk dn g b w c dl ac pn]. cbn in *. subst c.
+  subst cl.
+  assert (Eb : b = BExit).
+  { destruct b; try discriminate; [destruct ch; discriminate|reflexivity]. }
+  subst b. destruct (Ibl eq_refl) as [-> _].
+  destruct w as [|d|d|d bt|d| | |]; try discriminate.
+  - subst wk. destruct d; [congruence|]. rewrite (Iwt eq_refl eq_refl) in *.
+    cbn in *. rewrite app_nil_r in Ic. repeat split; auto.
+  - exfalso. apply Z.eqb_neq in Hcc. lia.
+Qed.
+
+Lemma cp_not_back l s : cp s <> CNot -> cp (step l s) <> CNot.
+Proof.
+  destruct s as [ch cl bf wk dn g b w c dl ac pn]. cbn [cp]. intro H.
+  destruct l as [p e| | |]; cbn [step].
+  - unfold step_pub. destruct (key_of e); [destruct cl; [|destruct (Nlen ch <? ew_chan_cap)]|]; exact H.
+  - unfold step_B. destruct b; try exact H. destruct ch; [destruct cl|]; exact H.
+  - unfold step_W. destruct w as [|d|d|d bt|d| | |]; try exact H.
+    + destruct dn; exact H.
+    + destruct bf; exact H.
+    + destruct wk; [destruct bf|]; exact H.
+    + destruct bt; exact H.
+    + destruct bf; exact H.
+  - unfold step_C. destruct c; try discriminate; try exact H. destruct (g =? 0)%Z; discriminate.
+Qed.
+
+Lemma quiescent_dec s : {quiescent s} + {~ quiescent s}.
+Proof.
+  unfold quiescent. destruct (b_can s), (w_can s), (c_can s);
+    try (left; repeat split; reflexivity); right; intros (A & B & C); discriminate.
+Qed.
+
+Lemma close_returns_or_lost_wakeup_inv pol :
+  fair_policy pol ->
+  forall m s, (measure s <= m)%nat -> Inv s -> cp s <> CNot ->
+  exists n, (n <= m)%nat /\ (cp (drive pol n s) = CReturned \/ lost_wakeup (drive pol n s)).
+Proof.
+  intros Hfair. induction m as [|m IH]; intros s Hm I Hc.
+  - exists 0%nat. split; [lia|]. cbn [drive].
+    destruct (quiescent_dec s) as [Q|Q].
+    + destruct (cp s) eqn:Ec; try congruence.
+      * destruct Q as (_ & _ & Q). unfold c_can in Q. rewrite Ec in Q. discriminate.
+      * right. apply stuck_is_lost_wakeup_inv; assumption.
+      * left. reflexivity.
+    + destruct (Hfair s Q) as [Hs Hcan]. pose proof (measure_decreases _ _ Hs Hcan). lia.
+  - destruct (quiescent_dec s) as [Q|Q].
+    + exists 0%nat. split; [lia|]. cbn [drive].
+      destruct (cp s) eqn:Ec; try congruence.
+      * destruct Q as (_ & _ & Q). unfold c_can in Q. rewrite Ec in Q. discriminate.
+      * right. apply stuck_is_lost_wakeup_inv; assumption.
+      * left. reflexivity.
+    + destruct (Hfair s Q) as [Hs Hcan]. pose proof (measure_decreases _ _ Hs Hcan) as Hd.
+      destruct (IH (step (pol s) s)) as (n & Hn & Hres).
+      * lia.
+      * apply step_inv, I.
+      * apply cp_not_back, Hc.
+      * exists (S n). split; [lia|]. cbn [drive]. exact Hres.
+Qed.
+
+Lemma close_returns_or_lost_wakeup pol sched :
+  fair_policy pol ->
+  let s := run sched init in
+  cp s <> CNot ->
+  exists n, (n <= measure s)%nat /\
+            (cp (drive pol n s) = CReturned \/ lost_wakeup (drive pol n s)).
+Proof.
+  cbn zeta. intros Hf Hc.
+  apply (close_returns_or_lost_wakeup_inv pol Hf (measure (run sched init))); auto.
+  apply inv_reach.
+Qed.
+
+(* such policies exist: batcher first, then writer, then Close *)
+Definition bwc_policy (s : st) : label := if b_can s then LB else if w_can s then LW else LC.
+Lemma bwc_fair : fair_policy bwc_policy.
+Proof.
+  intros s Q. unfold bwc_policy, quiescent, service in *.
+  destruct (b_can s) eqn:B; [split; [auto|exact B]|].
+  destruct (w_can s) eqn:W; [split; [auto|exact W]|].
+  destruct (c_can s) eqn:C; [split; [auto|exact C]|].
+  exfalso. apply Q. auto.
+Qed.
+
+Definition close_terminates_statement : Prop :=
+  forall sched, cp (run sched init) = CClosed ->
+                exists sched', cp (run sched' (run sched init)) = CReturned.
+
+Lemma close_terminates_refuted : ~ close_terminates_statement.
+Proof.
+  intro H. destruct close_can_hang as [L N].
+  destruct (H hang_sched) as [sched' R].
+  - destruct L as [Hc _]. exact Hc.
+  - exact (N sched' R).
+Qed.
+
+Definition same_key_all_types_statement : Prop :=
+  forall sched m1 m2,
+    let s := run sched init in
+    In m1 (concat (delivered s)) -> In m2 (concat (delivered s)) ->
+    e_env (m_ev m1) = e_env (m_ev m2) -> e_env (m_ev m1) <> [] ->
+    3 <= e_kind (m_ev m1) -> 3 <= e_kind (m_ev m2) ->
+    m_key m1 = m_key m2.
+
+Lemma same_key_all_types_refuted : ~ same_key_all_types_statement.
+Proof.
+  intro H.
+  specialize (H sched_two_keys (mkMsg 0 ev_task_E (Some [84])) (mkMsg 0 ev_env_E (Some [69]))).
+  cbn zeta in H.
+  assert (E : Some [84] = Some [69]).
+  { apply H; vm_compute; auto; try discriminate. }
+  discriminate E.
+Qed.
+
+(* deciding NoDup on identities (for the non-vacuity example) *)
+Definition id_eqb (a b : N * N) : bool := (fst a =? fst b) && (snd a =? snd b).
+Lemma nodupb_NoDup (l : list (N * N)) : nodupb id_eqb l = true -> NoDup l.
+Proof.
+  induction l as [|x r IH]; intro H; [constructor|].
+  cbn [nodupb] in H. apply andb_true_iff in H. destruct H as [H1 H2].
+  constructor; [|apply IH, H2].
+  intro Hin. apply negb_true_iff in H1.
+  assert (E : existsb (id_eqb x) r = true).
+  { apply existsb_exists. exists x. split; [exact Hin|].
+    unfold id_eqb. rewrite !N.eqb_refl. reflexivity. }
+  congruence.
 Qed.
